@@ -199,9 +199,49 @@ func init() {
 				continue
 			}
 			ring = orient(ring, o)
-			switch c.rng.Intn(9) {
+			switch c.rng.Intn(11) {
 			case 0, 1:
 				c16Smart(c, []string{"Ring", "Geometry"}[c.rng.Intn(2)], box, [][][][2]int{{closed(scale60(ring))}}, o)
+			case 9, 10: // a comb: a spine left of the box with two or three teeth reaching into it, so that the outer ring is
+				// cut into several pieces; small holes inside the teeth (each must end up in the piece that contains it)
+				nt := 2 + c.rng.Intn(2)
+				bxl := 2 // the box's left side, between the spine (x <= 1) and the tooth ends
+				var outer [][2]int // counter-clockwise: up the right side tooth by tooth, back down the spine
+				outer = append(outer, [2]int{0, 0}, [2]int{1, 0})
+				var holes [][][2]int
+				y := 0
+				for t := 0; t < nt; t++ {
+					y0 := y + c.rng.Intn(2)
+					if t == 0 {
+						y0 = 0
+					}
+					y1 := y0 + 1 + c.rng.Intn(2)
+					xe := 4 + c.rng.Intn(3)
+					if t == 0 {
+						outer = outer[:1]
+						outer = append(outer, [2]int{xe, 0})
+					} else {
+						outer = append(outer, [2]int{1, y0}, [2]int{xe, y0})
+					}
+					outer = append(outer, [2]int{xe, y1}, [2]int{1, y1})
+					if c.rng.Intn(3) > 0 { // a hole in this tooth, inside the box, on the 1/60 lattice
+						hx, hy := (bxl*4+1+c.rng.Intn((xe-bxl)*4-3))*15, (y0*4+1+c.rng.Intn((y1-y0)*4-2))*15
+						h := [][2]int{{hx, hy}, {hx + 15, hy}, {hx + 15, hy + 15}, {hx, hy + 15}}
+						if o > 0 {
+							h = reverse2(h)
+						}
+						holes = append(holes, closed(h))
+					}
+					y = y1 + 1
+				}
+				top := outer[len(outer)-1][1]
+				outer = outer[:len(outer)-1]
+				outer = append(outer, [2]int{0, top})
+				if o < 0 {
+					outer = reverse2(outer)
+				}
+				poly := append([][][2]int{closed(scale60(outer))}, holes...)
+				c16Smart(c, []string{"Polygon", "Geometry", "MultiPolygon"}[c.rng.Intn(3)], [4]int{bxl * S, -1 * S, 8 * S, (top + 1) * S}, [][][][2]int{poly}, o)
 			case 2: // polygon with an interior hole: a small square about the centre, kept only if it lies strictly inside
 				hole := [][2]int{{3, 3}, {3, 4}, {4, 4}, {4, 3}}
 				if o < 0 {
@@ -210,7 +250,8 @@ func init() {
 				if !squareInside(ring, hole) {
 					continue
 				}
-				c16Smart(c, []string{"Polygon", "Geometry"}[c.rng.Intn(2)], box, [][][][2]int{{closed(scale60(ring)), closed(scale60(hole))}}, o)
+				// (through MultiPolygon too: Polygon attaches the holes of a one-piece result without looking for the owner)
+				c16Smart(c, []string{"Polygon", "Geometry", "MultiPolygon"}[c.rng.Intn(3)], box, [][][][2]int{{closed(scale60(ring)), closed(scale60(hole))}}, o)
 			case 3: // multipolygon: two stars side by side, in [0,3] x [0,3] and [3,6] x [0,3] (they can touch along x = 3
 				// only), each possibly with a small interior hole; boxes that swallow one member whole arise often
 				r1, r2 := starRing(c, 3+c.rng.Intn(6), [2]int{3, 3}, 3), starRing(c, 3+c.rng.Intn(6), [2]int{3, 3}, 3)
